@@ -13,7 +13,7 @@ import numpy as np
 GATES1 = {"Dgate": 2, "Sgate": 2, "Rgate": 1, "Xgate": 1, "Zgate": 1, "Fouriergate": 0, "Vgate": 1, "Kgate": 1,
           "Pgate": 1}
 GATES2 = {"BSgate": 2, "MZgate": 2, "sMZgate": 2, "S2gate": 2, "CKgate": 1, "CXgate": 1, "CZgate": 1}
-PREPS = {"Vacuum": 0, "Coherent": 2, "Squeezed": 2, "DisplacedSqueezed": 4, "Thermal": 1, "Fock": 1}
+PREPS = {"Vacuum": 0, "Coherent": 2, "Squeezed": 2, "DisplacedSqueezed": 4, "Thermal": 1, "Fock": 1, "Catstate": 1}
 CHANNELS = {"LossChannel": 1, "ThermalLossChannel": 2}
 MEAS = {"MeasureHomodyne": 1, "MeasureFock": 0}
 BACKEND_CLASSES = {
@@ -89,8 +89,14 @@ def _par(p, prog, free):
     return p
 
 
-def _append_ops(prog, ops_list):
-    """append spec ops to `prog` (inside its context); returns list of created Commands"""
+def _numeric(op):
+    return not any(isinstance(p, dict) for p in op.get("pars", []))
+
+
+def _append_ops(prog, ops_list, op_cache=None):
+    """append spec ops to `prog` (inside its context).  `op_cache`: dict shared by the caller; equal
+    operations with numeric parameters become ONE shared Operation instance (within and across programs),
+    their daggered form is the `.H` of that shared instance (so the parameter list is aliased too)."""
     from strawberryfields import ops
     free = {}
     for op in ops_list:
@@ -106,34 +112,99 @@ def _append_ops(prog, ops_list):
                 ops.Del | [prog.reg_refs[i] for i in op["regs"]]
                 continue
             cls = getattr(ops, op["cls"])
-            pars = [_par(p, prog, free) for p in op.get("pars", [])]
-            kw = {}
-            if op.get("select") is not None:
-                kw["select"] = op["select"]
-            o = cls(*pars, **kw)
+            key = None
+            if op_cache is not None and _numeric(op):
+                key = (op["cls"], repr(op.get("pars", [])), repr(op.get("select")))
+            if key is not None and key in op_cache:
+                o = op_cache[key]
+            else:
+                pars = [_par(p, prog, free) for p in op.get("pars", [])]
+                kw = {}
+                if op.get("select") is not None:
+                    kw["select"] = op["select"]
+                o = cls(*pars, **kw)
+                if key is not None:
+                    op_cache[key] = o
             if op.get("dagger"):
-                o = o.H
+                hk = None if key is None else key + ("H",)
+                if hk is not None and hk in op_cache:
+                    o = op_cache[hk]
+                else:
+                    o = o.H
+                    if hk is not None:
+                        op_cache[hk] = o
             regs = [prog.reg_refs[i] for i in op["regs"]]
             o | (regs if len(regs) > 1 else regs[0])
 
 
-def build_segments(sf, spec):
-    """one sf.Program per segment.  succ[j] = build segment j as successor `sf.Program(prev)`."""
+def fresh_n(spec, j):
+    f = spec.get("fresh")
+    return spec["n"] if not f or f[j] is None else f[j]
+
+
+def build_segments(sf, spec, op_cache=None):
+    """one sf.Program per segment.  succ[j] = build segment j as successor `sf.Program(prev)`, otherwise as an
+    independent `sf.Program(fresh_n)` (fresh_n = spec["fresh"][j] or spec["n"])."""
     out = []
     for j, seg in enumerate(spec["segs"]):
         if j > 0 and spec.get("succ", [False] * len(spec["segs"]))[j]:
             p = sf.Program(out[-1], name=f"s{j}")
         else:
-            p = sf.Program(spec["n"], name=f"s{j}")
-        _append_ops(p, seg)
+            p = sf.Program(fresh_n(spec, j), name=f"s{j}")
+        _append_ops(p, seg, op_cache)
+        if spec.get("prog_shots") and spec["prog_shots"][j] is not None:
+            p.run_options = {"shots": spec["prog_shots"][j]}
         out.append(p)
     return out
 
 
-def build_concat(sf, spec):
+def run_order(spec):
+    return list(spec.get("order") or range(len(spec["segs"])))
+
+
+def build_concat(sf, spec, op_cache=None):
     p = sf.Program(spec["n"], name="cat")
-    _append_ops(p, [op for seg in spec["segs"] for op in seg])
+    _append_ops(p, [op for j in run_order(spec) for op in spec["segs"][j]], op_cache)
     return p
+
+
+def _evolve(regs, seg):
+    regs = copy.deepcopy(regs)
+    for op in seg:
+        if op["cls"] == "New":
+            regs += [[len(regs) + i, True] for i in range(op["k"])]
+        elif op["cls"] == "Del":
+            for r in op["regs"]:
+                regs[r][1] = False
+    return regs
+
+
+def built_regs(spec):
+    """ground truth from the spec: [(init_reg_refs, reg_refs)] of every program AS BUILT, [[ind, active], ...]"""
+    out = []
+    succ = spec.get("succ", [False] * len(spec["segs"]))
+    for j, seg in enumerate(spec["segs"]):
+        init = copy.deepcopy(out[-1][1]) if j > 0 and succ[j] else [[i, True] for i in range(fresh_n(spec, j))]
+        out.append((init, _evolve(init, seg)))
+    return out
+
+
+def follows(spec):
+    """for every consecutive pair of the run order: may the second program follow the first?  (documented rule of
+    can_follow: same RegRefs, identical indices and activity states)"""
+    b, order = built_regs(spec), run_order(spec)
+    return [b[y][0] == b[x][1] for x, y in zip(order, order[1:])]
+
+
+def coherent(spec):
+    """is running the programs in order the same computation as ONE program with all commands (i.e. does every
+    program start from exactly the register the concatenation has reached)?"""
+    b, regs = built_regs(spec), [[i, True] for i in range(spec["n"])]
+    for j in run_order(spec):
+        if b[j][0] != regs:
+            return False
+        regs = _evolve(regs, spec["segs"][j])
+    return True
 
 
 def regs_evolution(n, segs):
@@ -187,20 +258,16 @@ def model_cmds(seg, nregs_before):
 
 def model_progs(spec, concat=False):
     """Lean `Prog` dicts: one per segment, or the single concatenated program"""
-    segs = [[op for seg in spec["segs"] for op in seg]] if concat else spec["segs"]
-    evo = regs_evolution(spec["n"], segs)
-    succ = spec.get("succ", [False] * len(segs))
+    if concat:
+        spec = dict(spec, segs=[[op for j in run_order(spec) for op in spec["segs"][j]]], succ=[False], fresh=None, order=None)
     progs, nm = [], []
-    for j, seg in enumerate(segs):
-        init, fin = evo[j]
-        if j > 0 and not succ[j]:
-            # independent program over n fresh modes (only generated when no New/Del happened before)
-            init = [[i, True] for i in range(spec["n"])]
-            fin = regs_evolution(spec["n"], [seg])[0][1]
+    for j, (seg, (init, fin)) in enumerate(zip(spec["segs"], built_regs(spec))):
         cmds, _ = model_cmds(seg, len(init))
         free = sorted({p["f"] for op in seg for p in op.get("pars", []) if isinstance(p, dict) and "f" in p})
-        progs.append(dict(name=f"s{j}", initN=sum(1 for r in init if r[1]), initRegs=init, regs=fin, circuit=cmds,
-                          free=free))
+        pd = dict(name=f"s{j}", initN=sum(1 for r in init if r[1]), initRegs=init, regs=fin, circuit=cmds, free=free)
+        if spec.get("prog_shots") and spec["prog_shots"][j] is not None:
+            pd["shots"] = spec["prog_shots"][j]
+        progs.append(pd)
         nm.append(len(fin))
     return progs, nm
 
@@ -257,7 +324,9 @@ def _flt(x):
 def canon_call(rec):
     """-> dict(name, args=[[float]], modes=[int], sel=[float]|None, opts=[[k, v]])"""
     name, a, kw = rec["name"], list(rec["args"]), rec["kw"]
-    out = dict(name=name, args=[], modes=[], sel=None, opts=[])
+    out = dict(name=name, args=[], modes=[], sel=None, opts=[], shots=None)
+    if name.startswith("measure_"):
+        out["shots"] = kw.get("shots")
     if name == "begin_circuit":
         out["args"] = [[float(a[0])]]
         out["opts"] = sorted([k, int(v)] for k, v in kw.items() if isinstance(v, (int, np.integer)) and not isinstance(v, bool))
@@ -272,7 +341,9 @@ def canon_call(rec):
         if kw.get("select") is not None:
             out["sel"] = _flt(kw["select"])
     elif name == "state":
-        pass
+        if kw.get("modes") is not None:
+            out["modes"] = [int(m) for m in kw["modes"]]
+            out["opts"] = [["modes", 1]]
     elif name in NMODES:
         k = NMODES[name]
         out["args"] = [_flt(x) for x in a[:len(a) - k]]
@@ -289,11 +360,11 @@ def model_call(c):
     f = lambda q: q[0] / q[1]
     return dict(name=c["name"], args=[[f(n[0]) + f(n[1]) * np.pi for n in arg] for arg in c["args"]],
                 modes=list(c["modes"]), sel=None if c["sel"] is None else [f(x) for x in c["sel"]],
-                opts=sorted([k, int(v)] for k, v in c["opts"]))
+                opts=sorted([k, int(v)] for k, v in c["opts"]), shots=c.get("shots"))
 
 
 def same_call(a, b, tol=1e-9):
-    if a["name"] != b["name"] or a["modes"] != b["modes"] or a["opts"] != b["opts"]:
+    if a["name"] != b["name"] or a["modes"] != b["modes"] or a["opts"] != b["opts"] or a.get("shots") != b.get("shots"):
         return False
     if (a["sel"] is None) != (b["sel"] is None):
         return False
@@ -308,11 +379,13 @@ def same_call(a, b, tol=1e-9):
 
 
 def outcomes_of(calls):
-    """measurement outcomes (one list per measurement call, shots = 1) in call order"""
+    """measurement outcomes in call order: per measurement call, per measured mode, the values over the shots"""
     out = []
     for c in calls:
         if c["name"].startswith("measure_") and c["ret"] is not None:
-            out.append([float(v) for v in np.asarray(c["ret"]).reshape(-1)])
+            nm = len(c["args"][0]) if c["name"] in ("measure_fock", "measure_threshold") else 1
+            a = np.asarray(c["ret"], dtype=float).reshape(-1, nm)   # rows = samples the back end returned
+            out.append([[float(v) for v in col] for col in a.T])
     return out
 
 
